@@ -525,7 +525,7 @@ func (rn *c16Run) runHistory(idx int, base *c16Cfg, o *c16Order, r *vk.Rng) {
 			continue
 		}
 		hs := h.sess[op.S]
-		if hs == nil || hs.failed || hs.ended {
+		if hs == nil || hs.failed || hs.ended || !srv.Alive() { // a server that is gone: its port may already belong to another server
 			skipped++
 			h.trace = append(h.trace, word+":skipped")
 			continue
@@ -572,7 +572,9 @@ func (rn *c16Run) runHistory(idx int, base *c16Cfg, o *c16Order, r *vk.Rng) {
 	h.obs["trace"] = strings.Join(h.trace, " ")
 	h.obs["server_alive_at_end"] = srv.Alive()
 	if !srv.Alive() {
-		h.violate("server-died", "thruserv exited while the clients were using it", map[string]any{"log_tail": srv.LogTail(1500)})
+		if info, outside := rn.servGone(h.c, h.prefix+"server-died", srv); !outside {
+			h.violate("server-died", "thruserv exited while the clients were using it", map[string]any{"log_tail": srv.LogTail(1500), "exit": info})
+		}
 	}
 	if h.clean && skipped == 0 {
 		rn.mu.Lock()
